@@ -14,8 +14,13 @@ package main
 // success, ByteSize, ChildStorables (recursively), SlabID, EncodeSlab.  Observables: panic, wall
 // time, allocated bytes (sampled on one goroutine).  Accepted inputs also go through
 // PersistentSlabStorage.Retrieve + NewArrayWithRootID/NewMapWithRootID + bounded read-only iteration
-// (information only).  trace.txt carries the header queries and the metadata-slab decodes for the
-// Coq engine `decode` (DecodeTrace.v).
+// (information only: events post_*).  EncodeSlab panics on slabs decoded from attacker-made bytes are
+// observations (events reencode_panic / reencode_overalloc + one sample), never violations: C19 covers
+// DecodeSlab, the header queries and ByteSize/ChildStorables only.  trace.txt carries the header queries
+// and the metadata-slab decodes for the Coq engine `decode` (DecodeTrace.v).
+//
+// Flags: default = quick tier (500 000 inputs, ~5 s); -n 10000000 -mode thorough = thorough tier (~1 min);
+// -only b<k> replays one batch.
 
 import (
 	"encoding/binary"
@@ -1792,7 +1797,6 @@ func c19MetaObs(res c19Result) []uint64 {
 }
 
 type c19Runner struct {
-	hardTimeout      time.Duration
 	post bool
 }
 
